@@ -192,7 +192,7 @@ pub fn run(tier: Tier) -> Outcome {
         Tier::Thorough => 4,
     };
     let h = model(tier);
-    let lim = Limits { max_depth: depth, max_wall_s: if tier == Tier::Quick { 45.0 } else { 2400.0 }, ..Default::default() };
+    let lim = Limits { max_depth: depth, max_wall_s: if tier == Tier::Quick { 300.0 } else { 2400.0 }, ..Default::default() };
     let (report, recheck) = run_world(&h, &lim, Some(depth - 1));
     let runs = vec![HistRun { world: "F".to_string(), report, recheck }];
     let mut o = assemble(
